@@ -226,6 +226,11 @@ func (u *Unit) parseAssign(env *Env, a string) assignLoc {
 			hn, hs := u.elemHeap(t)
 			return assignLoc{kind: kind, heap: []string{hn}, sorts: []Sort{hs}}
 		}
+		if strings.HasPrefix(inner, "map ") {
+			t := u.eng.resolveTypeString(strings.TrimSpace(inner[4:]), env.pkg)
+			dn, ds, vn, vs := u.mapHeaps(t)
+			return assignLoc{kind: kind, heap: []string{dn, vn}, sorts: []Sort{ds, vs}}
+		}
 		i := strings.LastIndex(inner, ".")
 		t := u.eng.resolveTypeString(inner[:i], env.pkg)
 		fname := inner[i+1:]
